@@ -21,6 +21,7 @@ func (g *GenericPlanner) WrapProcess(ctx *shared.PlannerContext,
 	out := make(chan []shared.LogEntry)
 
 	go func() {
+		recovered := false
 		onErr := func(err error) {
 			out <- []shared.LogEntry{{Err: err}}
 			go func() {
@@ -29,7 +30,16 @@ func (g *GenericPlanner) WrapProcess(ctx *shared.PlannerContext,
 			}()
 		}
 		defer close(out)
-		defer func() { shared.TamePanic(out) }()
+		defer func() {
+			// after a panic nobody reads _in any more: release the upstream goroutines
+			if recovered {
+				go func() {
+					for range _in {
+					}
+				}()
+			}
+		}()
+		defer shared.TamePanic(out, &recovered)
 		for entries := range _in {
 			for i := range entries {
 				err := ops.OnEntry(&entries[i])
